@@ -1,6 +1,6 @@
 //! C18 GPS time-of-week -> UTC time-of-day conversion is total and exact.
 
-use rs1090::decode::time::{gps_week_in_s, since_gps_week_to_since_today};
+use rs1090::decode::time::{gps_week_in_s, since_gps_week_to_since_today, since_gps_week_to_unix_s};
 use serde_json::{json, Value};
 use proptest::prelude::*;
 use rayon::prelude::*;
@@ -197,13 +197,34 @@ fn seq_strata(ctx: &Ctx) {
     }
 }
 
+/// `since_gps_week_to_unix_s` (what the SeRo reader stores as the reception's GNSS time) = start of the current GPS week
+/// + time of week. It reads the system clock; the current week is computed independently from the clock read before
+/// and after the call, and the case is skipped when the two readings straddle a week boundary.
+pub fn check_unix(ctx: &Ctx, t: u64) -> Check {
+    let rep = json!({"kind": "unix", "t": t});
+    let now = || std::time::SystemTime::now().duration_since(std::time::UNIX_EPOCH).map(|d| d.as_secs()).unwrap_or(0);
+    let week_of = |u: u64| u - (u - GPS_EPOCH_UNIX + LEAP) % WEEK_S;
+    let before = now();
+    let got = catch(|| since_gps_week_to_unix_s(t)).map_err(|p| Failure::new("unix:panic", format!("since_gps_week_to_unix_s({t}) panicked: {p}"), rep.clone()))?;
+    let after = now();
+    if week_of(before) != week_of(after) {
+        ctx.exclude("the system clock crossed a GPS week boundary during the call");
+        return Ok(());
+    }
+    let want = week_of(before) as f64 + t as f64 * 1e-9;
+    if !((got - want).abs() < 1e-3) {
+        return Err(Failure::new("unix:wrong-value", format!("t = {t} ns into the week: got {got}, start of the current GPS week {} + t = {want}", week_of(before)), rep));
+    }
+    Ok(())
+}
+
 fn nontrivial_tow(t: u64) -> bool {
     let r = t % DAY_NS;
     t < LEAP * NS || r < 60 * NS || r >= DAY_NS - 60 * NS || (r >= (LEAP - 1) * NS && r <= (LEAP + 1) * NS)
 }
 
 pub fn run(ctx: &Ctx) {
-    ctx.set_rule("t in [0, 604800e9) ns: every ns within +-W of each of the 8 day boundaries and of the 18 s leap offset after each, strided sweep of the first/last minute around each boundary, proptest-uniform elsewhere; Unix times 1980-01-06+18s .. 2100 uniform plus every week boundary +-20 s. Non-trivial = t within 60 s of a day boundary or below 18 s (or u within 20 s of a week boundary); distinct values counted. Histories: sequences of 2-11 calls of both functions (arguments from boundary-biased pools: day / week boundaries +- 2 min, the leap offset, the first weeks, 2017, the present, the 2^31 s rollover, 2100; or the previous argument +- 2^j ns/us/ms/s, +- a day, +- k weeks), each call judged by its exact oracle -- in this process one after the other, and each sequence again in a process of its own (its first call is the first call the code ever sees); one first call per year 1980..2100 followed by the present. Non-trivial sequence = one that calls both functions.");
+    ctx.set_rule("t in [0, 604800e9) ns: every ns within +-W of each of the 8 day boundaries and of the 18 s leap offset after each, strided sweep of the first/last minute around each boundary, proptest-uniform elsewhere; Unix times 1980-01-06+18s .. 2100 uniform plus every week boundary +-20 s. Non-trivial = t within 60 s of a day boundary or below 18 s (or u within 20 s of a week boundary); distinct values counted. since_gps_week_to_unix_s(t) = start of the current GPS week (from the system clock, computed independently) + t within 1 ms. Histories: sequences of 2-11 calls of both functions (arguments from boundary-biased pools: day / week boundaries +- 2 min, the leap offset, the first weeks, 2017, the present, the 2^31 s rollover, 2100; or the previous argument +- 2^j ns/us/ms/s, +- a day, +- k weeks), each call judged by its exact oracle -- in this process one after the other, and each sequence again in a process of its own (its first call is the first call the code ever sees); one first call per year 1980..2100 followed by the present. Non-trivial sequence = one that calls both functions.");
     ctx.assume("leap-second offset is the constant 18 s the code documents (valid since 2017)");
     let w = ctx.tier.pick(2_000u64, 200_000u64);
     // dense: every ns around the day boundaries and the leap offsets
@@ -287,6 +308,13 @@ pub fn run(ctx: &Ctx) {
     });
     ctx.class_n("uniform unix times", cases as u64);
     ctx.sample(json!({"kind": "week", "u": 1_700_000_000u64, "week_start": gps_week_in_s(1_700_000_000)}));
+    // the third conversion the SeRo reader applies to every reception
+    let cases = ctx.tier.pick(20_000u32, 400_000u32);
+    run_prop(ctx, "unix", cases, prop_oneof![4 => 0u64..WEEK_NS, 1 => 0u64..120 * NS, 1 => (1u64..120 * NS).prop_map(|b| WEEK_NS - b), 1 => (0u64..7, 0u64..NS).prop_map(|(d, ns)| d * DAY_NS + ns)], |t| {
+        ctx.eval();
+        ctx.class("time of week -> Unix time of the reception (current week from the system clock)");
+        check_unix(ctx, *t)
+    });
     seq_strata(ctx);
     ctx.sample(json!({"kind": "seq", "ops": [["tow", "604775000000000"], ["week", "1790467182"], ["tow", "86500250000005"], ["tow", "119268250000010"]]}));
 }
@@ -297,6 +325,7 @@ pub fn replay(ctx: &Ctx, v: &Value) {
         "tow" => check_tow(v["t"].as_u64().unwrap_or(0)),
         "week" => check_week(v["u"].as_u64().unwrap_or(GPS_EPOCH_UNIX)),
         "seq" => judge_seq(&seq_of(v)),
+        "unix" => check_unix(ctx, v["t"].as_u64().unwrap_or(0)),
         _ => Ok(()),
     };
     ctx.judge(r);
